@@ -116,7 +116,16 @@ macro_rules! apply {
             Op::CloneS => { let c = $s.clone(); format!("copy:{}", hex(c.as_bytes())) }
             Op::Reserve(n) => { $s.reserve(*n); if $s.capacity() < $s.len() + *n { "short_capacity".to_string() } else { "unit".to_string() } }
             Op::ShrinkToFit => { $s.shrink_to_fit(); "unit".to_string() }
-            Op::WriteFmt(n) => { use std::fmt::Write as W; write!($s, "{}-{:?}-{:x}", n, "é", n).unwrap(); "unit".to_string() }
+            Op::WriteFmt(n) => {
+                use std::fmt::Write as W;
+                // chars on both sides of every encoding-length boundary, as arguments and as fill characters
+                let c = ['a', '\u{7f}', '\u{80}', 'é', 'ÿ', '\u{100}', '€', '𝄞'][(*n % 8) as usize];
+                write!($s, "{}-{:?}-{:x}", n, "é", n).unwrap();
+                write!($s, "|{}|{:é^7}|{:ÿ>4}|{:?}|{:\u{80}<3}", c, n % 100, c, c, n % 7).unwrap();
+                W::write_char(&mut $s, c).unwrap();
+                W::write_str(&mut $s, "ß").unwrap();
+                "unit".to_string()
+            }
             Op::IntoBumpStr => unreachable!(),
         }
     }};
@@ -161,7 +170,8 @@ fn gen_op(rng: &mut Rng, len: usize, nchars: usize) -> Op {
         68..=76 => Op::Drain(pick_bound(rng, len), pick_bound(rng, len), rng.usize_below(4)),
         77..=84 => { let n = rng.usize_below(4); Op::ReplaceRange(pick_bound(rng, len), pick_bound(rng, len), text(rng, n)) }
         85..=90 => Op::SplitOff(pick_index(rng, len)),
-        91..=93 => { let n = rng.usize_below(5); Op::Extend(text(rng, n)) }
+        91..=92 => { let n = rng.usize_below(5); Op::Extend(text(rng, n)) }
+        93 => Op::WriteFmt(rng.below(100000) as u32),
         94 => Op::CloneS,
         95..=96 => Op::Reserve(if rng.chance(1, 6) { usize::MAX - rng.usize_below(3) } else { rng.usize_below(100) }),
         97 => Op::ShrinkToFit,
@@ -210,6 +220,15 @@ fn run_program(seed: u64, hid: u64, maxops: usize) {
         line!("S {} | {} | {} | {}", op.show(), so.res, hex(&so.bytes), so.valid as u8);
         if nb.as_slice() != nb_expected.as_slice() {
             line!("X neighbour_disturbed");
+        }
+        if let Op::WriteFmt(n) = &op {
+            // the format! macro of the crate against std's
+            let c = ['a', '\u{7f}', '\u{80}', 'é', 'ÿ', '\u{100}', '€', '𝄞'][(*n % 8) as usize];
+            let bf = bumpalo::format!(in &bump, "{}{:é<5}|{:>3}|{:?}{}", c, n % 50, c, c, "ü");
+            let sf = std::format!("{}{:é<5}|{:>3}|{:?}{}", c, n % 50, c, c, "ü");
+            if bf.as_bytes() != sf.as_bytes() {
+                line!("X format_macro_differs_from_std bump={} std={}", hex(bf.as_bytes()), hex(sf.as_bytes()));
+            }
         }
         // trait forwarding: whenever both hold the same valid text they hash, compare and print alike,
         // also through Borrow<str> (a map keyed by the arena String is looked up with a &str)
